@@ -140,6 +140,7 @@ type workerOut struct {
 	Real        []string         `json:"real"`
 	Stub        []string         `json:"stub"`
 	Doc         string           `json:"doc"`
+	Cases       []string         `json:"cases"`
 }
 
 func TestMain(m *testing.M) {
@@ -204,6 +205,7 @@ func TestSim(t *testing.T) {
 	fpsNon := map[uint64]struct{}{}
 	fpsAll := map[uint64]struct{}{}
 	seenClass := map[string]bool{}
+	cases := map[string]struct{}{}
 	for i := *fFrom; i < *fFrom+*fCount; i++ {
 		if *fBudget > 0 && time.Since(start) > *fBudget {
 			break
@@ -227,6 +229,9 @@ func TestSim(t *testing.T) {
 			out.Hits[k] += v
 		}
 		fpsAll[res.Fingerprint] = struct{}{}
+		if res.Case != "" && len(cases) < 20000 {
+			cases[res.Case] = struct{}{}
+		}
 		if res.Nontrivial {
 			out.Nontrivial++
 			fpsNon[res.Fingerprint] = struct{}{}
@@ -281,6 +286,10 @@ func TestSim(t *testing.T) {
 			break
 		}
 	}
+	for c := range cases {
+		out.Cases = append(out.Cases, c)
+	}
+	sort.Strings(out.Cases)
 	out.Distinct = int64(len(fpsNon))
 	out.DistinctAll = int64(len(fpsAll))
 	out.WallS = time.Since(start).Seconds()
